@@ -379,8 +379,8 @@ var c07ModelledMeths = map[string]bool{}
 func init() {
 	for _, n := range strings.Fields(`accept map reduce sum mapReduce mean min max minMax combine combine3 combineN indexWhere
  groupByString groupByInt groupByEqual uniqueString uniqueInt compact cross merge order orderRev orderLess reverse append
- iir iirCombine visit fsm top skip number present set size first single last eval movingWindow movingWindowRemove
- len string trim toLower toUpper contains indexOf split cut replace toInt get put isAvail list multiUse`) {
+ iir iirCombine visit fsm top skip number present set size first single last eval movingWindow movingWindowRemove replaceList
+ len string trim toLower toUpper contains indexOf split cut replace toInt toFloat get put isAvail list multiUse replaceMap`) {
 		c07ModelledMeths[n] = true
 	}
 }
@@ -1354,6 +1354,7 @@ func init() {
 		"eval":               {"list", "list", none},
 		"movingWindow":       {"list", "list", f1("key")},
 		"movingWindowRemove": {"list", "list", f1("listbool")},
+		"replaceList":        {"list", "any", f1("listsize")},
 		// strings
 		"len":      {"str", "num", none},
 		"string":   {"any", "str", none},
@@ -1369,6 +1370,7 @@ func init() {
 			return []c07Arg{c07Val(c07TStr(s[r.Pick(len(s))])), c07Val(c07TStr(s[r.Pick(len(s))]))}
 		}},
 		"toInt": {"str", "num", none},
+		"toFloat": {"str", "num", none},
 		// maps
 		"get": {"map", "any", func(r *Rng) []c07Arg { return []c07Arg{c07Val(c07TStr([]string{"a", "b", "k", "", "zz"}[r.Pick(5)]))} }},
 		"put": {"map", "map", func(r *Rng) []c07Arg {
@@ -1383,6 +1385,20 @@ func init() {
 			return as
 		}},
 		"list": {"map", "list", none},
+		"replaceMap": {"map", "any", func(r *Rng) []c07Arg {
+			mem := func() *c07CExp {
+				return &c07CExp{K: "member", A: c07CArg(0), Key: []string{"a", "b", "k", "state", "zz"}[r.Pick(5)]}
+			}
+			switch r.Pick(4) {
+			case 0:
+				return []c07Arg{c07Fn(1, c07CInt(r.Pick(9)))}
+			case 1:
+				return []c07Arg{c07Fn(1, c07COp("+", mem(), mem()))}
+			case 2:
+				return []c07Arg{c07Fn(1, &c07CExp{K: "list", L: []*c07CExp{mem(), c07CInt(1)}})}
+			}
+			return []c07Arg{c07Fn(1, mem())}
+		}},
 	}
 	for n, m := range c07Meths {
 		switch m.recv {
@@ -1546,6 +1562,8 @@ func (r *Rng) c07GenCase() *C07Case {
 		// keep the share of plain successes up: fit the receiver to methods that need a special one
 		if i == 0 && c.Static == "" {
 			switch {
+			case s.M == "toFloat" && r.Chance(0.7):
+				c.Src = c07TStr(r.c07Numeral(true))
 			case s.M == "toInt" && r.Chance(0.6):
 				c.Src = c07TStr([]string{"12", "-7", "+5", "007", "0", "9223372036854775807", "-9223372036854775808", "42"}[r.Pick(8)])
 			case s.M == "single" && c.Src.Kind == "list" && len(c.Src.Items) > 1 && r.Chance(0.6):
@@ -1735,6 +1753,10 @@ func c07Run(c *C07Case, id int, sum *Summary, cw *CaseWriter) {
 		sum.GoViolations = append(sum.GoViolations, GoViolation{CaseID: id, What: what, Sig: sig, Human: human, Expected: want, Observed: shown})
 	} else if what, want := c.c07MapVerdict(o); what != "" {
 		sum.GoViolations = append(sum.GoViolations, GoViolation{CaseID: id, What: what, Sig: sig, Human: human, Expected: want, Observed: shown})
+	} else if what, want := c.c07NumeralVerdict(o); what != "" {
+		sum.GoViolations = append(sum.GoViolations, GoViolation{CaseID: id, What: what, Sig: sig, Human: human, Expected: want, Observed: shown})
+	} else if what, want := c.c07NumStaticVerdict(o); what != "" {
+		sum.GoViolations = append(sum.GoViolations, GoViolation{CaseID: id, What: what, Sig: sig, Human: human, Expected: want, Observed: shown})
 	} else if what, want := c.c07OracleVerdict(o); what != "" {
 		sum.GoViolations = append(sum.GoViolations, GoViolation{CaseID: id, What: what, Sig: sig, Human: human, Expected: want, Observed: shown})
 	} else if o.Kind == "panic" {
@@ -1765,7 +1787,7 @@ func c07HumanArgs(c *C07Case) []string {
 }
 
 func cmdC07(seed int64, tier, outDir string) {
-	n := 1150
+	n := 1300
 	if tier == "thorough" {
 		n = 60000
 	}
@@ -1803,6 +1825,10 @@ func cmdC07(seed int64, tier, outDir string) {
 			c07Run(r.c07MultiUseCase(), id, sum, cw)
 		case i%14 == 2:
 			c07Run(r.c07GroupEqCase(), id, sum, cw)
+		case i%14 == 9:
+			c07Run(r.c07ParseCase(), id, sum, cw)
+		case i%28 == 6 || i%28 == 0:
+			c07Run(r.c07NumStaticCase(), id, sum, cw)
 		default:
 			c07Run(r.c07GenCase(), id, sum, cw)
 		}
